@@ -329,6 +329,34 @@ theorem fromShapefile_eq (arch : List Member) (fs fe : String) :
   rw [rloop1_eq arch fs fe _ convLit_eq]
   cases mapExcept _ _ <;> simp [Except.map, bind, Except.bind, pure, Except.pure]
 
+/-! ## GeoPandas: `to_geopandas` -/
+
+theorem toP_get (d : Dict PVal) (k : String) : V.toP (V.get d k) = (dictGet d k).getD .null := by
+  unfold V.get
+  cases dictGet d k <;> rfl
+
+theorem strSet_keys (coll : List Shape) :
+    strSet ((coll.map fun s => (Shape.properties s).map (·.1)).flatten) = keyUnion coll := by
+  unfold strSet keyUnion
+  simp [List.map_flatten, List.map_map, Function.comp_def]
+
+/-- **`CollectionBase.to_geopandas`, translated, hands pandas / GeoPandas what the model's `toGeopandas` does** -/
+theorem toGeopandas_eq (coll : List Shape) (incl : Option (List String)) :
+    SrcIo.toGeopandas coll incl = GV.Io.toGeopandas incl coll := by
+  unfold SrcIo.toGeopandas GV.Io.toGeopandas
+  simp only [List.map_map, Function.comp_def, List.map_id', toP_get]
+  have hk : inclOr incl (strSet ((coll.map fun s => (Shape.properties s).map (·.1)).flatten)) =
+      (match incl with | some (k :: ks) => k :: ks | _ => keyUnion coll) := by
+    rcases incl with _ | _ | ⟨a, l⟩ <;> simp [inclOr, inclTruthy, strSet_keys]
+  have hm : (fun x => giOrErr x) = giOrErr := rfl
+  simp only [hm]
+  cases mapExcept giOrErr coll with
+  | error e => rfl
+  | ok gs =>
+    simp [hk, Except.map, bind, Except.bind, pure, Except.pure]
+    intro s _
+    rcases incl with _ | _ | ⟨b, l⟩ <;> rfl
+
 /-! ## the importers with the translated helpers in place, and the headline theorems restated for them
 
 `from_shapefile` / `from_geopandas` as `Model/Io.lean` has them, except that the time bounds of a row are what the
